@@ -23,7 +23,8 @@ type Pij struct {
 }
 
 func NewPij(m Model, l float64) (pij *Pij, err error) {
-	pij = &Pij{DBL_MIN,
+	// length is initialized to NaN, which differs from any l: the first SetLength always computes the matrix
+	pij = &Pij{math.NaN(),
 		m,
 		mat.NewDense(m.NState(), m.NState(), nil),
 		make([]float64, m.NState()),
